@@ -4,6 +4,7 @@ package main
 
 import (
 	"fmt"
+	"math/big"
 	"os"
 	"go/ast"
 	"go/constant"
@@ -375,7 +376,14 @@ func (x *Exec) load(st *State, p Value, ty types.Type) Value {
 		}
 		return v
 	case ElemPtr:
-		return TV{T: simpSelect(app("gseq.arr", q.Seq.T), q.Index), Ty: elemType(q.Seq.Ty)}
+		el := TV{T: simpSelect(app("gseq.arr", q.Seq.T), q.Index), Ty: elemType(q.Seq.Ty)}
+		if st != nil {
+			// the loaded element is a well-formed value of its type
+			for _, f := range x.enc.TypeFacts(el.T, el.Ty, 1) {
+				st.Assume(f)
+			}
+		}
+		return el
 	case BytePtr:
 		x.declBytesOps()
 		var bt string
@@ -1371,6 +1379,10 @@ func (x *Exec) convert(st *State, v Value, from, to types.Type) Value {
 			if flo == tlo && fhi == thi {
 				return TV{T: tv.T, Ty: to}
 			}
+			if rangeWithin(flo, fhi, tlo, thi) {
+				// widening conversion: the value is unchanged
+				return TV{T: tv.T, Ty: to}
+			}
 			if isNumeral(tv.T) {
 				return TV{T: tv.T, Ty: to}
 			}
@@ -1539,4 +1551,28 @@ func (x *Exec) lookup(st *State, fr *Frame, ins *ssa.Lookup) {
 	} else {
 		fr.env[ins] = v
 	}
+}
+
+// rangeWithin: [flo,fhi) is contained in [tlo,thi) (bounds are SMT integer literals).
+func rangeWithin(flo, fhi, tlo, thi string) bool {
+	p := func(s string) *big.Int {
+		neg := false
+		if strings.HasPrefix(s, "(- ") {
+			neg = true
+			s = s[3 : len(s)-1]
+		}
+		n, ok := new(big.Int).SetString(s, 10)
+		if !ok {
+			return nil
+		}
+		if neg {
+			n.Neg(n)
+		}
+		return n
+	}
+	a, b, c, d := p(flo), p(fhi), p(tlo), p(thi)
+	if a == nil || b == nil || c == nil || d == nil {
+		return false
+	}
+	return a.Cmp(c) >= 0 && b.Cmp(d) <= 0
 }
